@@ -25,7 +25,9 @@ RULE = ("(a) all target patterns of depth 1 (arity 1..3, leaf kinds name/attribu
         "class by rotation, and once more inside one of 16 further containers: closure, method, loop "
         "body, branch, class in function, ...); depth-3 patterns drawn by "
         "Hypothesis; (b) the complete operator x target x operand-kind x placement matrix of "
-        "augmented assignment, type-incompatible cells (original raises) discarded and counted. "
+        "augmented assignment, type-incompatible cells (original raises) discarded and counted; (c) stores "
+        "that are the only effect of a taken if-branch (28 falsy and truthy values x the binding forms of "
+        "the falsy-body family x 6 shapes incl. class body, declared global, nonlocal) x 8 configurations. "
         "Each case under the 4 semantic configurations with alternating unparser (matrix) / all 8 "
         "(drawn). Non-trivial: the pattern has a star or nesting, or the operand type has an "
         "in-place method / is a user class; distinct by case source.")
@@ -402,6 +404,40 @@ def _deep_shard(item):
     return part
 
 
+def _branch_store_shard(item):
+    """stores that are the ONLY effect of a taken branch, for falsy and truthy stored values: what
+    the target receives must not depend on how the branch is encoded (the falsy-body family of C05,
+    decided here with the final values of all targets as well)"""
+    from . import c05
+    from ..kit import Kit
+    idx, nshards = item
+    part = new_part()
+    for k, (vi, fi, shape, src) in enumerate(c05.falsy_cases()):
+        if k % nshards != idx:
+            continue
+        form = c05.BODY_FORMS[fi]
+        if not any(t in form for t in (" = ", ":=", "*=", "import")):
+            continue
+        # the final values become observable
+        src = src + "L('final', *[globals().get(n) for n in ('x', 'y', 'z', 'w', 'gq', 'lst', 'pp')])\n"
+        for sched in (0, 1):
+            o = run_code(src, "exec", Kit(sched, 100000))
+            if not o["ok"]:
+                part["discarded"]["branch-store-original-raises"] += 1
+                break
+            part["evaluations"] += 1
+            part["classes"]["branch-store"] += 1
+            part["nontrivial"].add(key_hash(src, sched))
+            status, failures, _ = check_program(src, env.ALL_CFGS, sched, orig=o)
+            if status == "fail":
+                cfg, diffs, text = failures[0]
+                if len(part["violations"]) < 3:
+                    part["violations"].append({"payload": program_payload(src, cfg, sched), "diffs": diffs,
+                                               "what": "a store that is the only statement of a taken branch differs (%s)" % env.cfg_name(cfg)})
+                break
+    return part
+
+
 def run(report):
     quick = report.tier == "quick"
     report.rule = RULE
@@ -409,6 +445,7 @@ def run(report):
     ns = env.NPROC * 2
     items = [(_aug_shard, (i, ns, switches)) for i in range(ns)]
     items += [(_pattern_shard, (i, ns, quick)) for i in range(ns)]
+    items += [(_branch_store_shard, (i, ns)) for i in range(ns)]
     items += [(_deep_shard, (env.sub_seed(report.seed, "C13", i), 40 if quick else 2500)) for i in range(env.NPROC)]
     from .. import hosts
     others = hosts.available_other_hosts()
